@@ -221,10 +221,11 @@ Definition acceptable (s : st) (mbf : bool) (e : csent) : bool := negb mbf || (n
 Definition node_hit (s : st) (mbf : bool) (nd : node) : option csent :=
   match n_cs nd with Some e => if acceptable s mbf e then Some e else None | None => None end.
 
-(* findMatchingDataCSPrefix visits the children of a node in Go map order.  The set of answers it can give is
-   the set of acceptable entries below the start node with no acceptable entry strictly above them (at or below the
-   start node); Tree.v proves that every visiting order returns a member of this list and returns nil only when
-   the list is empty. *)
+(* A CanBePrefix lookup may answer with ANY cached packet whose name extends the Interest name and that is fresh enough
+   (that is all the property demands; which one is the implementation's choice - Go map order, first found, deepest ...):
+   `prefix_cands` is that set.  The pinned findMatchingDataCSPrefix (own entry before descendants, children in map order) picks
+   inside the narrower `dfs_cands` (no acceptable entry strictly above the answer); Tree.v proves dfs_cands <= prefix_cands and
+   that every visiting order of the code's search answers in dfs_cands and answers nil only when prefix_cands is empty. *)
 Fixpoint blocked (s : st) (mbf : bool) (from : nat) (fuel : nat) (p : name) : bool :=
   (* some node firstn k p with from <= k < from + fuel has an acceptable entry *)
   match fuel with
@@ -236,6 +237,13 @@ Fixpoint blocked (s : st) (mbf : bool) (from : nat) (fuel : nat) (p : name) : bo
   end.
 
 Definition prefix_cands (s : st) (n : name) (mbf : bool) : list csent :=
+  flat_map (fun nd =>
+    match node_hit s mbf nd with
+    | Some e => if is_prefix n (n_path nd) then [e] else []
+    | None => []
+    end) (nodes s).
+
+Definition dfs_cands (s : st) (n : name) (mbf : bool) : list csent :=
   flat_map (fun nd =>
     match node_hit s mbf nd with
     | Some e => if is_prefix n (n_path nd) && negb (blocked s mbf (length n) (length (n_path nd) - length n) (n_path nd))
